@@ -761,8 +761,13 @@ theorem lex_docEsc (X : Ora) (ctx : LCtx) (t : List Char) (ht : ∀ c r, t = c :
         · subst hr
           simp only [docEsc, hc, hb, if_false, if_true, List.cons_append]
           rw [long_esc2, ih]; simp
-        · simp only [docEsc, hc, hb, hr, if_false, List.cons_append]
-          rw [long_plain X ctx c hb hc, ih]; simp
+        · by_cases hn : c = cNUL
+          · subst hn
+            simp only [docEsc, hc, hb, hr, if_false, if_true, List.cons_append]
+            rw [long_esc2, long_plain X ctx '0' (by decide) (by decide),
+              long_plain X ctx '0' (by decide) (by decide), ih]; simp
+          · simp only [docEsc, hc, hb, hr, hn, if_false, List.cons_append]
+            rw [long_plain X ctx c hb hc, ih]; simp
 
 def docTail (d rest : List Char) : List Char :=
   cDQ :: cDQ :: cLF :: ' ' :: ' ' :: ' ' :: ' ' :: (docEsc 0 d ++ ([cLF] ++ indent4 ++ [cDQ, cDQ, cDQ] ++ rest))
@@ -771,9 +776,9 @@ theorem docWrapL_eq (d rest : List Char) : docWrapL d ++ rest = cDQ :: docTail d
   simp [docWrapL, indent4, docTail]
 
 /-- after the first quote of the docstring literal -/
-theorem lex_doc_body (X : Ora) (ctx : LCtx) (d rest : List Char) (hnul : cNUL ∉ d) :
+theorem lex_doc_body (X : Ora) (ctx : LCtx) (d rest : List Char) :
     lex X ctx (.strOpen 2 [cDQ]) (docTail d rest) = prepend [.str] (lex X ctx .mid rest) := by
-  have hlit := lexSrc_docWrapL d hnul
+  have hlit := lexSrc_docWrapL d
   have ht : ∀ c r, ([cLF] ++ indent4 ++ [cDQ, cDQ, cDQ] ++ rest) = c :: r → c ≠ cDQ := by
     intro c r h; simp at h; rw [← h.1]; decide
   have h1 : ∀ r, lstep X ctx (.strOpen 2 [cDQ]) cDQ r = .go ctx (.strOpen 1 [cDQ, cDQ]) [] := by
@@ -860,13 +865,13 @@ theorem bol_word (X : Ora) (ind ind' : List Nat) (n : Nat) (ts : List Tok) (hd :
 
 /-- the docstring literal at the start of a line at column `n` -/
 theorem bol_doc (X : Ora) (ind ind' : List Nat) (n : Nat) (ts : List Tok) (hd : dent ind n = some (ind', ts))
-    (d rest : List Char) (hnul : cNUL ∉ d) :
+    (d rest : List Char) :
     lex X ⟨0, ind⟩ (.bol n) (docWrapL d ++ rest) = prepend (ts ++ [.str]) (lex X ⟨0, ind'⟩ .mid rest) := by
   have h0 : lstep X ⟨0, ind⟩ (.bol n) cDQ (docTail d rest) = .go ⟨0, ind'⟩ (.strOpen 2 [cDQ]) ts := by
     have := docTail_take2 d rest
     simp [lstep, midStep, cDQ, cSQ, cLF, hd] at this ⊢
     simp [this]
-  rw [docWrapL_eq, lex_go h0, lex_doc_body X _ d rest hnul, prepend_prepend]
+  rw [docWrapL_eq, lex_go h0, lex_doc_body X _ d rest, prepend_prepend]
 
 /-! ## class bodies and modules -/
 
@@ -875,7 +880,7 @@ def nonBlank : Item → Bool
   | _ => true
 
 def wfItem : Item → Bool
-  | .doc d => !d.contains cNUL
+  | .doc _ => true
   | .ann n e => targetName n && wf e
   | .assign n e => targetName n && wf e
   | .blank => true
@@ -931,10 +936,9 @@ theorem lex_item (X : Ora) (pr : Char → Bool) (it : Item) (h : wfItem it = tru
     have : identTok kwPass = .kw kwPass := by decide
     simp [this, indOf]
   | doc d =>
-    simp only [wfItem, Bool.not_eq_true', List.contains_eq_mem, decide_eq_false_iff_not] at h
     simp only [renderItem, nonBlank, itemToks, List.append_assoc, Bool.or_true, if_true, List.cons_append,
       List.nil_append]
-    rw [bol_indent4, bol_doc X _ _ 4 _ hd d _ h, mid_newline, bol_blank, prepend_prepend]
+    rw [bol_indent4, bol_doc X _ _ 4 _ hd d _, mid_newline, bol_blank, prepend_prepend]
     simp [indOf]
   | ann n e =>
     simp only [wfItem, Bool.and_eq_true] at h
